@@ -145,6 +145,14 @@ def gen(rng, ctx):
         cd = G.add_blackboxes(rng, cd, rng.randint(1, 2), bbdefs=[{"name": "ff", "inputs": ["clk", "d"], "outputs": ["q"]}] if cls == "flops" else None, p_unconnected=0.0 if cls == "flops" else 0.2)
     if cls == "cyclic":
         cd = G.add_cycles(rng, cd, rng.randint(1, 2))
+    if rng.random() < 0.12:
+        # escaped identifiers (the writers treat them specially)
+        plain = [n for n, _, _ in cd["nodes"] if "." not in n]
+        try:
+            cd = G.cd_rename(cd, {v: "\\" + v + rng.choice(["[0]", "-1", ""]) for v in rng.sample(plain, min(len(plain), rng.randint(1, 2)))})
+            cls += "+escaped"
+        except ValueError:
+            pass
     c2 = G.rewrite_equiv(rng, cd, 2) if rng.random() < 0.5 else G.rand_circuit(rng, ni, rng.randint(1, 5), max_fanin=3)
     nodes = [n for n, _, _ in cd["nodes"]]
     tps = G.cd_types(cd)
@@ -240,7 +248,8 @@ def check(case, ctx):
     ctx.count(f"fn:{fn}")
     ctx.count(f"outcome:{fn}:{'ok' if ok else 'raised'}")
     ctx.count(f"variant:{case['variant']}")
-    ctx.count(f"class:{case['cls']}")
+    for k_ in case["cls"].split("+"):
+        ctx.count(f"class:{k_}")
     ctx.count("returned" if ok else "raised")
     what = f"{fn}(<{case['cls']} circuit>, ...) [{case['variant']}] -> {'returned' if ok else 'raised ' + repr(r)}"
     for a, s in zip(arg_circuits, snaps):
@@ -299,7 +308,7 @@ def gates(counters, table, tier):
             out.append(f"{fn} driven only {n} times")
         if fn not in ext and counters.get(f"outcome:{fn}:ok", 0) < 1:
             out.append(f"{fn} never returned normally")
-    for k in ("raised", "returned", "edit_checks", "identity_checks"):
+    for k in ("raised", "returned", "edit_checks", "identity_checks", "class:escaped"):
         if counters.get(k, 0) < 20:
             out.append(f"{k} seen {counters.get(k, 0)} times")
     return out
